@@ -93,6 +93,7 @@ package openapi3filter
 //@     && cliBody == store(old(cliBody), ptr(w), concat(old(cliBody)[ptr(w)], hStrictBody))
 //@   ensures [non-strict-pass-through] !old(strictMode(v)) && routeFound(r) && reqOK ==>
 //@        errCalls == old(errCalls) && cliHdr == hPostHdr && cliCode == hPostCode && cliBody == hPostBody
+//@   option safety-tags C14 C10
 //@   tag C14
 
 // ---- strict wrapper ----
@@ -109,6 +110,7 @@ package openapi3filter
 //@   ensures unchanged(cliHdr, cliCode, cliBody)
 //@   ensures wr.headerWritten && wr.status == (old(wr.headerWritten) ? old(wr.status) : status)
 //@   ensures strictInv(wr)
+//@   option safety-tags C14 C10
 //@   tag C14
 
 //@ func (*strictResponseWrapper).Write
@@ -119,6 +121,7 @@ package openapi3filter
 //@   ensures wr.headerWritten && wr.status == (old(wr.headerWritten) ? old(wr.status) : 200)
 //@   ensures bufContent(emb(wr, body)) == concat(old(bufContent(emb(wr, body))), bytes(b))
 //@   ensures strictInv(wr)
+//@   option safety-tags C14 C10
 //@   tag C14
 
 //@ func (*strictResponseWrapper).Header
@@ -126,18 +129,21 @@ package openapi3filter
 //@   modifies nothing
 //@   ensures unchanged(cliHdr, cliCode, cliBody)
 //@   ensures result == headerOf(ptr(wr.w))
+//@   option safety-tags C14 C10
 //@   tag C14
 
 //@ func (*strictResponseWrapper).statusCode
 //@   requires wr != nil
 //@   modifies nothing
 //@   ensures result == wr.status
+//@   option safety-tags C14 C10
 //@   tag C14
 
 //@ func (*strictResponseWrapper).bodyContents
 //@   requires wr != nil
 //@   modifies nothing
 //@   ensures bytes(result) == bufContent(emb(wr, body))
+//@   option safety-tags C14 C10
 //@   tag C14
 
 // The client receives exactly the status and body the handler wrote.
@@ -149,6 +155,7 @@ package openapi3filter
 //@   ensures cliHdr == store(old(cliHdr), ptr(wr.w), true)
 //@   ensures !old(cliHdr)[ptr(wr.w)] ==> cliCode == store(old(cliCode), ptr(wr.w), wr.status)
 //@   ensures cliBody == store(old(cliBody), ptr(wr.w), concat(old(cliBody)[ptr(wr.w)], bufContent(emb(wr, body))))
+//@   option safety-tags C14 C10
 //@   tag C14
 
 // ---- warn wrapper: every call has, on the client, exactly the effect of the same call on w ----
@@ -165,6 +172,7 @@ package openapi3filter
 //@   ensures result != nil && fresh(result) && result.w == w && !result.headerWritten && result.status == 0
 //@   ensures warnInv(result)
 //@   ensures unchanged(cliHdr, cliCode, cliBody)
+//@   option safety-tags C14 C10
 //@   tag C14
 
 //@ func (*warnResponseWrapper).WriteHeader
@@ -175,6 +183,7 @@ package openapi3filter
 //@   ensures cliWriteHeaderEffect(ptr(wr.w), status)
 //@   ensures wr.headerWritten && wr.status == (old(wr.headerWritten) ? old(wr.status) : status)
 //@   ensures warnInv(wr)
+//@   option safety-tags C14 C10
 //@   tag C14
 
 //@ func (*warnResponseWrapper).Write
@@ -183,6 +192,7 @@ package openapi3filter
 //@   modifies wr.status, wr.headerWritten, cliHdr, cliCode, cliBody, bytes.Buffer.*
 //@   ensures cliWriteEffect(ptr(wr.w), bytes(b))
 //@   ensures warnInv(wr)
+//@   option safety-tags C14 C10
 //@   tag C14
 
 //@ func (*warnResponseWrapper).Header
@@ -190,23 +200,27 @@ package openapi3filter
 //@   modifies nothing
 //@   ensures unchanged(cliHdr, cliCode, cliBody)
 //@   ensures result == headerOf(ptr(wr.w))
+//@   option safety-tags C14 C10
 //@   tag C14
 
 //@ func (*warnResponseWrapper).flushBodyContents
 //@   modifies nothing
 //@   ensures unchanged(cliHdr, cliCode, cliBody) && result == nil
+//@   option safety-tags C14 C10
 //@   tag C14
 
 //@ func (*warnResponseWrapper).statusCode
 //@   requires wr != nil
 //@   modifies nothing
 //@   ensures result == wr.status
+//@   option safety-tags C14 C10
 //@   tag C14
 
 //@ func (*warnResponseWrapper).bodyContents
 //@   requires wr != nil
 //@   modifies nothing
 //@   ensures unchanged(cliHdr, cliCode, cliBody)
+//@   option safety-tags C14 C10
 //@   tag C14
 
 // ---- ValidationHandler (request-only gate) ----
@@ -230,6 +244,7 @@ package openapi3filter
 //@   ensures vhOK ==> encCalls == old(encCalls) && unchanged(cliHdr, cliCode, cliBody)
 //@   ensures !vhOK ==> encCalls == old(encCalls) + 1
 //@   ensures h.Handler == old(h.Handler)
+//@   option safety-tags C14 C10
 //@   tag C14
 
 //@ func (*ValidationHandler).ServeHTTP
@@ -238,6 +253,7 @@ package openapi3filter
 //@   modifies vhOK, encCalls, cliHdr, cliCode, cliBody, handlerCalls, hStrictStatus, hStrictWritten, hStrictBody, hPostHdr, hPostCode, hPostBody
 //@   ensures [handler-iff-valid] handlerCalls == old(handlerCalls) + (vhOK ? 1 : 0)
 //@   ensures [error-answered-once] encCalls == old(encCalls) + (vhOK ? 0 : 1)
+//@   option safety-tags C14 C10
 //@   tag C14
 
 //@ func (*ValidationHandler).Middleware$1
@@ -246,6 +262,7 @@ package openapi3filter
 //@   modifies vhOK, encCalls, cliHdr, cliCode, cliBody, handlerCalls, hStrictStatus, hStrictWritten, hStrictBody, hPostHdr, hPostCode, hPostBody
 //@   ensures [handler-iff-valid] handlerCalls == old(handlerCalls) + (vhOK ? 1 : 0)
 //@   ensures [error-answered-once] encCalls == old(encCalls) + (vhOK ? 0 : 1)
+//@   option safety-tags C14 C10
 //@   tag C14
 
 // Every method of the two wrappers is under contract: the assumed contract of the wrapped handler
@@ -258,4 +275,5 @@ package openapi3filter
 //@   requires wr != nil && warnInv(wr)
 //@   modifies cliHdr, cliCode
 //@   ensures cliFlushEffect() && warnInv(wr)
+//@   option safety-tags C14 C10
 //@   tag C14
